@@ -15,6 +15,7 @@ import time
 
 sys.path.insert(0, os.path.dirname(os.path.abspath(__file__)))
 import vlib  # noqa: E402
+import kani as kanilib  # noqa: E402
 
 ROOT = vlib.ROOT
 
@@ -189,6 +190,63 @@ def main():
             for k, v in sc.items():
                 if v > allow.get(k, 0):
                     undecided.append("%s: assumption scan: %d x `%s` exceeds committed allow-list (%d)" % (gname, v, k, allow.get(k, 0)))
+    # ---- Kani side (complete loop-free full-domain harnesses; bounded slice harnesses labelled so)
+    kani_violations = []
+    bounded_checks = []
+    kani_out = {}
+    for cname in spec.get("kani", []):
+        try:
+            kspec, kdir, kex, kres = kanilib.run_all(cname, tier)
+        except vlib.Undecided as e:
+            undecided.append("kani %s: %s" % (cname, e))
+            continue
+        kani_out[cname] = {"harnesses": len(kres), "wall_s": round(sum(r["s"] for r in kres.values()), 1)}
+        for it in kex:
+            functions.append({"id": "kani:" + it["id"], "file": it["file"], "lines": [it["line_start"], it["line_end"]], "sha256": it.get("sha256"), "rules": it["rules"], "under_contract": "vx_contract!" in it["ftext"]})
+        for hn, h in kspec["harnesses"].items():
+            r = kres.get(hn)
+            if r is None:
+                continue
+            checker_cmds.append("(cd build/kani_%s && %s)" % (cname, r["cmd"]))
+            solver_ms += r["s"] * 1000.0
+            ob = {"unit": "kani:%s" % cname, "label": h["label"], "kind": "kani-" + h["kind"], "obligation": "kani/%s/%s" % (cname, h["label"]),
+                  "text": h["text"] + (" [BOUNDED: %s]" % h["bound"] if h.get("bound") else ""), "backend": "kani 0.68/cbmc", "ms": r["s"] * 1000.0, "group": "kani:" + cname,
+                  "cbmc_checks": r.get("n_checks")}
+            if h["kind"] == "canary":
+                canaries["must_fail"] += 1
+                if r["status"] == "failed":
+                    canaries["failed"] += 1
+                elif r["status"] == "ok":
+                    canaries["verified_unexpectedly"].append("kani:" + hn)
+                else:
+                    undecided.append("kani %s/%s: canary gave %s" % (cname, hn, r["status"]))
+                continue
+            if r["status"] in ("timeout", "error"):
+                undecided.append("kani %s/%s: %s: %s" % (cname, hn, r["status"], r["output"][-300:].replace("\n", " ")))
+                ob["discharged"] = False
+            elif r["status"] == "ok":
+                ob["discharged"] = True
+            else:
+                ob["discharged"] = False
+                inp = kanilib.decode_inputs(h, r.get("playback"))
+                rep = None
+                if inp is not None:
+                    try:
+                        rep = kanilib.replay_real(cname, hn, inp)
+                    except Exception as e:  # noqa: BLE001
+                        rep = {"built": False, "output": "replay raised %r" % (e,)}
+                f = {"obligation": ob["obligation"], "props": [pid], "message": "; ".join(r.get("failed_checks") or []), "rendered": r["output"][-4000:],
+                     "owner": ob["unit"], "clause_unit": ob["unit"], "group": "kani:" + cname, "failing_input": inp, "replay": rep, "harness": hn}
+                if rep and rep.get("built") and not rep.get("confirmed_on_real_code"):
+                    # the extracted text and the real code disagree on this input: never an alarm
+                    undecided.append("kani %s/%s: counterexample %s does NOT reproduce on the real code (%s): extraction/shim mismatch" % (cname, hn, inp, rep.get("output", "").strip()[:200]))
+                else:
+                    kani_violations.append(f)
+            if h["kind"] == "bounded":
+                bounded_checks.append(dict(ob, status=r["status"]))
+            else:
+                obligations.append(ob)
+                table.append(ob)
     if canaries["verified_unexpectedly"]:
         undecided.append("vacuous contract (canary verified): %s" % canaries["verified_unexpectedly"])
     if tier == "thorough" and unstable:
@@ -199,6 +257,7 @@ def main():
     # known findings
     violations = []
     known_hits = []
+    failures.extend(kani_violations)
     for f in failures:
         k = [x for x in known if x.get("status") == "open" and x.get("obligation") == f["obligation"]]
         if k:
@@ -222,6 +281,22 @@ def main():
         for i, f in enumerate(violations):
             rp = os.path.join(ROOT, "build", "replay", "%s_%d.json" % (pid, i))
             unit_items = [x for x in functions if x["id"] == f.get("owner") or x["id"] == f.get("clause_unit")]
+            if f.get("failing_input") is not None:
+                rep = f.get("replay") or {}
+                json.dump({
+                    "property": pid,
+                    "obligation": f["obligation"],
+                    "verifier": "kani 0.68 / cbmc 6.11",
+                    "verifier_message": f["message"],
+                    "verifier_output": f["rendered"],
+                    "failing_input": f["failing_input"],
+                    "replay_on_real_code": rep,
+                    "how_to_replay": rep.get("cmd") or "python3 run/kani.py (replay crate could not be built; see replay_on_real_code.output)",
+                    "note": "Kani counterexample (concrete playback), evaluated against the real altrios-core functions by build/replay_* (same oracle text as the harness)",
+                }, open(rp, "w"), indent=1)
+                tail = "" if rep.get("confirmed_on_real_code") else " no-failing-input-found"
+                lines.append("VIOLATION property=%s replay=%s obligation=%s%s" % (pid, rp, f["obligation"].replace(" ", "_"), tail))
+                continue
             json.dump({
                 "property": pid,
                 "obligation": f["obligation"],
@@ -263,6 +338,8 @@ def main():
             "rules_fired": rules,
             "not_decided": spec.get("not_decided", []),
             "bounded": spec.get("bounded", []),
+            "bounded_checks": bounded_checks,
+            "kani": kani_out,
             "undecided": undecided,
             "known_findings_hit": [k.get("what") for k, _ in known_hits],
             "unstable": unstable,
